@@ -276,7 +276,10 @@ def run_case_in_child(scn, plan, opcode=False, record=False):
     if opcode and scn.get('opcode_files'):
         opcode = tuple(LIB + f for f in scn['opcode_files'])
     touch = table_touch_lines() if any(isinstance(k, (tuple, list)) for _t, k in plan) else None
-    out = run_schedule(bodies, plan, opcode=opcode, record=record, trace_extra=trace_extra, touch=touch)
+    # a thread waiting for a lock held by a pre-empted thread is expected where an import is in flight (import lock):
+    # short patience there; elsewhere a long one, so that a slow machine does not make schedules irreproducible
+    out = run_schedule(bodies, plan, opcode=opcode, record=record, trace_extra=trace_extra, touch=touch,
+                       block_after=0.08 if scn.get('fresh_modules') else 0.5)
     post = []
     for expr in scn.get('post', []):
         try:
